@@ -15,6 +15,16 @@ def grids(rng, thorough):
     out.append(("log", np.logspace(-3, -0.5, 40)))
     out.append(("near0", np.linspace(1e-4, 0.02, 25)))
     out.append(("irregular", np.sort(np.array([rng.uniform(0.002, 0.4) for _ in range(rng.randint(5, 60))]))))
+    # data are not always stored in increasing q (merged detector banks, descending scans): same property
+    out.append(("descending", np.logspace(-0.6, -2.6, 24)))
+    sh = [rng.uniform(0.002, 0.4) for _ in range(rng.randint(6, 30))] + [0.0015]
+    rng.shuffle(sh)
+    out.append(("shuffled", np.array(sh)))
+    # equally spaced from the origin (q_k = k h, a common data layout): the default extension below q_min then
+    # lands a sample on or next to zero, inside the |q| < 0.02 q_min band that is removed from q_calc
+    h = rng.uniform(5e-4, 5e-3)
+    out.append(("origin", h * np.arange(1, rng.randint(8, 25))))
+    out.append(("origin-offset", h * np.arange(1, rng.randint(8, 25)) + rng.uniform(-0.015, 0.015) * h))
     out.append(("two", np.array([0.01, 0.05])))
     out.append(("single", np.array([0.1])))
     if thorough:
@@ -67,8 +77,23 @@ def main(run):
     evals, distinct = 0, set()
     for gname, q in grids(rng, thorough):
         # ---------------- pinhole
-        for wname, dq in [("5%", 0.05 * q), ("wide", rng.uniform(0.5, 1.5) * q), ("const", np.full(len(q), rng.uniform(1e-4, 0.02))),
-                          ("per-point", np.array([rng.uniform(0.001, 0.3) * x for x in q]))]:
+        widths = [("5%", 0.05 * q), ("wide", rng.uniform(0.5, 1.5) * q), ("const", np.full(len(q), rng.uniform(1e-4, 0.02))),
+                  ("per-point", np.array([rng.uniform(0.001, 0.3) * x for x in q]))]
+        # directed: widths for which the default extension puts a sample inside the |q| < 0.02 min(q) band that is
+        # removed from q_calc (rare by chance: the band is 4% of q_min wide)
+        from sasmodels.resolution import pinhole_extend_q as _ext
+        hits = []
+        for r_ in np.linspace(0.38, 1.6, 245):
+            try:
+                sg = _ext(q, r_ * q)
+            except Exception:  # noqa
+                continue
+            if np.any(np.abs(sg) < 0.02 * np.min(q)):
+                hits.append(r_)
+        if hits:
+            widths.append(("band", rng.choice(hits) * q))
+            stats["pinhole_band_removed"] = stats.get("pinhole_band_removed", 0) + 1
+        for wname, dq in widths:
             desc = dict(kind="pinhole", grid=gname, q=list(map(float, q)), dq=list(map(float, dq)))
             evals += 1; stats["pinhole"] += 1
             try:
@@ -164,6 +189,30 @@ def main(run):
                     if len(res.q_calc) <= 200 and len(res.q_calc) >= 2:
                         cases.append("(MkCase 1%%nat %s %s %s %s %s %s)" % (flist(res.q_calc), flist([]), fhex(q[i]), fhex(Lv[i]), fhex(W), flist(res.weight_matrix[:, i])))
                         metas.append(dict(desc, point=int(i)))
+    # ---------------- the result for a data point does not depend on where it is stored in the data arrays
+    for gname, q in grids(rng, False)[:6]:
+        if len(q) < 3:
+            continue
+        perm = list(range(len(q))); rng.shuffle(perm); perm = np.array(perm)
+        rev = np.arange(len(q))[::-1]
+        for oname, ix in (("reversed", rev), ("permuted", perm)):
+            dq = 0.1 * q + 1e-4
+            Lp = np.array([rng.uniform(0.01, 0.2) for _ in q])
+            for kind, mk in (("pinhole", lambda qq, ii: Pinhole1D(qq, dq[ii])),
+                             ("slit-length", lambda qq, ii: Slit1D(qq, q_length=Lp[ii])),
+                             ("slit-scalar", lambda qq, ii: Slit1D(qq, q_length=0.05))):
+                evals += 1; stats["order"] = stats.get("order", 0) + 1
+                desc = dict(kind="order", resolution=kind, grid=gname, order=oname, q=list(map(float, q)), index=list(map(int, ix)))
+                try:
+                    r0 = mk(q, np.arange(len(q))); r1 = mk(q[ix], ix)
+                except Exception as exc:  # noqa
+                    run.add(Finding("C03:order:construct", "%s on the %s grid stored %s raised %r" % (kind, gname, oname, exc), desc)); continue
+                same_grid = len(r0.q_calc) == len(r1.q_calc) and np.array_equal(r0.q_calc, r1.q_calc)
+                if not same_grid or not np.array_equal(np.asarray(r0.weight_matrix)[:, ix], np.asarray(r1.weight_matrix)):
+                    run.add(Finding("C03:order:%s" % kind, "%s: weights / q_calc of a data point change when the %s data are stored %s (q_calc %d vs %d points)" % (
+                        kind, gname, oname, len(r0.q_calc), len(r1.q_calc)), desc))
+                else:
+                    distinct.add(("order", kind, gname, oname))
     # ---------------- 2-D pixel resolution
     from sasmodels.data import empty_data2D
     from sasmodels.resolution2d import Pinhole2D
